@@ -11,6 +11,9 @@ FramesLong  == { <<{1}>>, <<{1,2}>>, Long11 }
 FramesGap   == { <<{1}>>, <<{1}, {}, {2}>>, <<{1,2}>> }
 OpsAll == {"append", "overwrite", "remove", "wrg"}
 OpsAppend == {"append"}
+(* appends through write(append=True) interleaved with changes made through a handle (write_row_groups, remove_row_groups) *)
+OpsMixed == {"append", "wrg", "remove"}
+FramesOne == { <<{1}>>, <<{1,2}>> }
 BoolBoth == {TRUE, FALSE}
 OnlyPartitioned == {TRUE}
 =============================================================================
